@@ -101,7 +101,7 @@ class Gen:
             members = [g for g in self.view.descendants(idxs) if self.view.rate[g] != 0]
             if members:
                 g = r.choice(members)
-                mult = r.choice([1e-3, 0.1, 1.0, 1.0, 3.0, 30.0, 700.0, 745.0, 800.0])
+                mult = r.choice([1e-3, 0.1, 1.0, 1.0, 3.0, 30.0, 50.0, 700.0, 745.0, 800.0, 1076.0, 1090.0, 1110.0])
                 secs = float(mult / self.view.rate[g])
                 self._count("time:half-life-multiple")
                 return self._in_unit(secs)
